@@ -107,6 +107,10 @@ SUPER_FRESH_METHODS = {"__getitem__"}
 # constructors of callables whose call allocates its result (torchvision PILToTensor:
 # torch.as_tensor(np.array(pic, copy=True)))
 FRESH_CALLABLE_CTORS = ("torchvision.transforms.PILToTensor",)
+# constructors of callables whose result may share the buffer of their argument (torchvision ToPILImage:
+# a float tensor is converted through .mul(255).byte() = new storage, a contiguous uint8 one may be handed
+# to PIL.Image.frombuffer as it is)
+MAYBE_CALLABLE_CTORS = ("torchvision.transforms.ToPILImage",)
 
 # methods of the Dataset classes themselves that are external oracles (fresh result)
 SELF_FRESH_METHODS = {"_get_video_idx", "transform_to_pil", "transform_pil_to_tensor"}
@@ -124,10 +128,12 @@ MODULES = {
     "sleap_nn.data.utils": f"{DATA}/utils.py",
     "sleap_nn.data.custom_datasets": f"{DATA}/custom_datasets.py",
     "sleap_nn.data.streaming_datasets": f"{DATA}/streaming_datasets.py",
+    "sleap_nn.data.get_data_chunks": f"{DATA}/get_data_chunks.py",
 }
 
 CD = "sleap_nn.data.custom_datasets"
 SD = "sleap_nn.data.streaming_datasets"
+GC = "sleap_nn.data.get_data_chunks"
 FILL_SELF = {"labels": ("param", 0), "cache": ("local",), "cache_lf": ("local",), None: ("param", 1)}
 # (display name, module, qualified name, self model or None)
 TARGETS = [
@@ -175,6 +181,11 @@ TARGETS = [
     ("CenteredInstanceStreamingDataset.__getitem__", SD, "CenteredInstanceStreamingDataset.__getitem__", None),
     ("CentroidStreamingDataset.__getitem__", SD, "CentroidStreamingDataset.__getitem__", None),
     ("SingleInstanceStreamingDataset.__getitem__", SD, "SingleInstanceStreamingDataset.__getitem__", None),
+    # round 3: the litdata chunk functions (labelled frame -> sample dict(s); a generator for the crops)
+    ("bottomup_data_chunks", GC, "bottomup_data_chunks", None),
+    ("centered_instance_data_chunks", GC, "centered_instance_data_chunks", None),
+    ("centroid_data_chunks", GC, "centroid_data_chunks", None),
+    ("single_instance_data_chunks", GC, "single_instance_data_chunks", None),
 ]
 
 
@@ -242,6 +253,7 @@ class Scope:
         self.frozen: set[str] = set()        # names whose versioning is switched off (loops with break/continue, try)
         self.oracles: set[str] = set()
         self.fresh_callables: set[str] = set()
+        self.maybe_callables: set[str] = set()
         self.ret: int | None = None
         self.ret_elts: list[int] | None = None
         self.fname = "?"
@@ -542,7 +554,8 @@ class Translator:
                 o = kw["out"]
                 out.append(self.mkstore(o, [a for a in allargs if a != o]))
                 return self.tmp(out, ("alias", o), "out")
-            if canon in ORACLE_CTORS or canon in FRESH_CALLABLE_CTORS or canon.startswith(FRESH_PREFIXES):
+            if canon in ORACLE_CTORS or canon in FRESH_CALLABLE_CTORS or canon in MAYBE_CALLABLE_CTORS \
+                    or canon.startswith(FRESH_PREFIXES):
                 return self.fresh(out, e, sc, f"{canon}() oracle")
             if canon in FUNC_TABLE:
                 return self.apply_kind(FUNC_TABLE[canon], e, sc, out, pos[0] if pos else None, allargs, canon)
@@ -554,6 +567,9 @@ class Translator:
             if f.id in sc.names:
                 if f.id in sc.fresh_callables:
                     return self.fresh(out, e, sc, f"{f.id}() fresh-result callable")
+                if f.id in sc.maybe_callables:
+                    return self.apply_kind("maybe", e, sc, out, allargs[0] if allargs else None, allargs,
+                                           f"{f.id}() callable: new object or its argument's buffer")
                 if f.id in sc.oracles:
                     # kornia AugmentationSequential.__call__: an external oracle whose outputs are new
                     # tensors or (when no operation fires, observed) the inputs themselves
@@ -711,6 +727,11 @@ class Translator:
         if isinstance(s, ast.Expr):
             if isinstance(s.value, ast.Constant):
                 return
+            if isinstance(s.value, ast.Yield):
+                # generator: every yielded value is a result of the call (the caller may hold all of them)
+                if s.value.value is not None:
+                    out.append(("assign", sc.ret, ("alias", self.expr(s.value.value, sc, out))))
+                return
             self.expr(s.value, sc, out)
         elif isinstance(s, ast.Assign):
             elts = None
@@ -731,6 +752,10 @@ class Translator:
                     for t in s.targets:
                         if isinstance(t, ast.Name):
                             sc.fresh_callables.add(t.id)
+                if isinstance(s.value, ast.Call) and self.canon(s.value.func, sc) in MAYBE_CALLABLE_CTORS:
+                    for t in s.targets:
+                        if isinstance(t, ast.Name):
+                            sc.maybe_callables.add(t.id)
             for t in s.targets:
                 self.assign_target(t, val, elts, sc, out)
         elif isinstance(s, ast.AnnAssign):
